@@ -172,9 +172,13 @@ func cmdCheck(args []string) int {
 	writeEv := func(violations int) {
 		ev.WallS = time.Since(t0).Seconds()
 		ev.Violations = violations
-		os.MkdirAll(filepath.Join(verifRoot, "evidence"), 0o755)
+		evdir := filepath.Join(verifRoot, "evidence")
+		if d := os.Getenv("VERIF_EVIDENCE_DIR"); d != "" {
+			evdir = d // experiments only; registered commands write /verif/evidence
+		}
+		os.MkdirAll(evdir, 0o755)
 		eb, _ := json.MarshalIndent(ev, "", " ")
-		os.WriteFile(filepath.Join(verifRoot, "evidence", id+".json"), eb, 0o644)
+		os.WriteFile(filepath.Join(evdir, id+".json"), eb, 0o644)
 	}
 
 	prog, err := gosx.Load(gosx.LoadSpec{Dir: *repo, Patterns: spec.Patterns, Overlays: overlays})
